@@ -67,6 +67,7 @@ def entries(tier):
         out.append(("tensor_ring", {"svd": svd}))
         out.append(("tensor_train_matrix", {"svd": svd}))
     out.append(("Tucker-class", {"init": "svd"}))
+    out.append(("tucker-fixed-factors", {}))
     out.append(("TensorTrain-class", {}))
     return out
 
@@ -90,6 +91,15 @@ def rank_specs(entry, shape, tier):
         if entry in ("parafac", "CP-class", "non_negative_parafac"):
             specs += ["same", 0.5]
         return specs
+    if entry == "tucker-fixed-factors":
+        # rank spec = ordered list of fixed modes (every non-empty proper subset, in increasing and in decreasing order)
+        out = []
+        for k in range(1, n):
+            for c in itertools.combinations(range(n), k):
+                out.append(["fixed"] + list(c))
+                if k >= 2:
+                    out.append(["fixed"] + list(reversed(c)))
+        return out
     if entry in ("tucker", "Tucker-class", "non_negative_tucker", "non_negative_tucker_hals"):
         specs = [[1] * n, [2] * n, [min(s, 2 + (k % 2)) for k, s in enumerate(shape)], [s + 1 for s in shape]]
         if entry in ("tucker", "Tucker-class"):
@@ -168,6 +178,17 @@ class C08(Check):
             elif entry == "randomised_parafac":
                 t = itm.TINY if tol is None else tol
                 res, errs = D.randomised_parafac(X, rank, n_iter_max=nit, tol=t, random_state=rs, return_errors=True, max_stagnation=0, **opts)
+            elif entry == "tucker-fixed-factors":
+                fixed = list(rank[1:])
+                ranks_ff = [min(s_, 1 + (k % 2) + (1 if k == 0 else 0)) for k, s_ in enumerate(shape)]
+                f_init = []
+                for k, s_ in enumerate(shape):
+                    q, _ = np.linalg.qr(itm.V.generic((s_, ranks_ff[k]), case["seed"] + 81 + k))
+                    f_init.append(np.ascontiguousarray(q))
+                core_init = itm.tucker_dense(X, [f.T for f in f_init])
+                res = D.tucker(X, ranks_ff, n_iter_max=nit, tol=0 if tol is None else tol, random_state=rs,
+                               init=(core_init.copy(), [f.copy() for f in f_init]), fixed_factors=list(fixed))
+                case = dict(case, _supplied=f_init, _fixed=fixed, _ranks=ranks_ff)
             elif entry in ("tucker", "Tucker-class"):
                 t = 0 if tol is None else tol
                 if entry == "tucker":
@@ -265,6 +286,18 @@ class C08(Check):
                 if np.abs(Bi.T @ Bi - ref).max() > 1e-8 * max(1.0, np.abs(ref).max()):
                     return viol("evolving-factors-cross-product", f"slice {i}: B_i^T B_i differs from B^T B")
             self.check_cp_norm((w, fs), bool(opts.get("normalize_factors")), viol, allow_nonunit_weights=True)
+        elif entry == "tucker-fixed-factors":
+            core, fs = np.asarray(res[0]), [np.asarray(f) for f in res[1]]
+            if len(fs) != n:
+                return viol("shape", f"{len(fs)} factors for order {n}")
+            for k, f in enumerate(fs):
+                if f.shape != (shape[k], case["_ranks"][k]):
+                    return viol("shape", f"fixed_factors={case['_fixed']}: factor {k} has shape {f.shape}, expected {(shape[k], case['_ranks'][k])}")
+                if core.shape[k] != f.shape[1]:
+                    return viol("shape", f"fixed_factors={case['_fixed']}: core shape {core.shape} vs factor {k} shape {f.shape}")
+            for k in case["_fixed"]:
+                if fs[k].tobytes() != case["_supplied"][k].tobytes():
+                    return viol("fixed-factor-not-returned-in-place", f"fixed_factors={case['_fixed']}: factor {k} is not the supplied one")
         # ---------------- Tucker family
         elif entry in ("tucker", "Tucker-class", "non_negative_tucker", "non_negative_tucker_hals"):
             core, fs = res[0], res[1]
@@ -350,7 +383,7 @@ class C08(Check):
 
     @staticmethod
     def must_raise(entry, shape, rank):
-        if not isinstance(rank, list):
+        if not isinstance(rank, list) or (rank and rank[0] == "fixed"):
             return False
         if entry in ("tensor_train", "TensorTrain-class", "tensor_train_matrix"):
             return rank[0] != 1 or rank[-1] != 1
